@@ -252,10 +252,18 @@ def case_axis(case):
                         fm = fld.copy()
                         fm.ravel()[list(mk[1:])] = np.nan
                         variants.append(("masked array + nan", np.ma.array(fm, mask=m1.reshape(shape)), {}))
-                for vname, arr, kw in variants:
+                # marker values at the edge of the float range of "ordinary" numbers: 0 (falsy) and +-inf; cells that
+                # hold the marker as data are missing as well
+                variants = [(v[0], v[1], v[2], exp) for v in variants]
+                for marker in (0.0, np.inf, -np.inf):
+                    mm = mask | np.isclose(fld, marker)
+                    fz = fld.copy()
+                    fz[mm] = marker
+                    variants.append(("no_data=%r" % marker, fz, {"no_data": marker}, ov.axis(fld, mm, ax, e)[0]))
+                for vname, arr, kw, exp in variants:
                     got = gs.vario_estimate_axis(arr, axname, estimator=name, **kw)
                     nsub += 1
-                    if not np.allclose(got, exp, rtol=1e-12, atol=1e-14):
+                    if not np.allclose(got, exp, rtol=1e-12, atol=1e-14, equal_nan=True):
                         r.fail("vario_estimate_axis == pair enumeration along the axis", got.tolist(), exp.tolist(), "1e-12", variant=vname, axis=ax, estimator=e, mask=list(mk), shape=list(shape))
                         if len(r.fails) > 5:
                             return r.done(outcome="F")
